@@ -419,16 +419,24 @@ def wrapper_identity_cases() -> list[tuple[str, str]]:
         ("one", U.Dimension(1), dims.ONE)]
     for cls in (Average, FiniteDifference, ExactDifferential, InexactDifferential):
         for (n1, d1, v1), (n2, d2, v2) in itertools.permutations(menu, 2):
-            for shape in ("symbol", "square", "applied"):
+            for shape in ("symbol", "square", "applied", "quantity"):
                 key = f"wrapper-identity:{cls.__name__}:{shape}:{n1}:{n2}"
-                if shape == "applied":
+                if shape == "quantity":
+                    # two quantities of one dimension whose values print alike (3 digits shown)
+                    if n1 == "one" or n2 != "one":
+                        continue
+                    from symplyphysics import Quantity
+                    unit = {"mass": U.kilogram, "length": U.meter, "time": U.second}[n1]
+                    a, b = Quantity(sp.Float("3.0001") * unit), Quantity(sp.Float("3.0002") * unit)
+                    w1 = w2 = v1
+                elif shape == "applied":
                     t = Symbol("t", U.time)
                     a, b = Function("m", [t], d1)(t), Function("m", [t], d2)(t)
                 else:
                     a, b = Symbol("m", d1), Symbol("m", d2)
                 if shape == "square":
                     a, b, w1, w2 = a**2, b**2, v1**2, v2**2
-                else:
+                elif shape != "quantity":
                     w1, w2 = v1, v2
                 wa = cls(a)
                 first = lib_dim(wa.dimension)
@@ -443,6 +451,8 @@ def wrapper_identity_cases() -> list[tuple[str, str]]:
                     msgs.append(f"second wrapper has dimension {lib_dim(wb.dimension)}, argument {w2}")
                 if wa == wb:
                     msgs.append("wrappers of two different arguments are equal")
+                if wa.factor != a:
+                    msgs.append("the first wrapper no longer holds its own argument")
                 if cls(a) != wa:
                     msgs.append("the same argument wrapped twice gives different operands")
                 try:
